@@ -1124,7 +1124,6 @@ impl Parser<'_, '_> {
 
         let start_span = self.take(Token::FStringStart)?;
 
-        // TODO: we need to properly unescape the `{{` and `}}`
         while let Some((part, span)) = self.lexer.f_string_part() {
             let (FStringToken::StringEnd(s)
             | FStringToken::StringIntermediate(s)) = &part;
@@ -1135,8 +1134,7 @@ impl Parser<'_, '_> {
                     start: span.start,
                     end: span.end,
                 };
-                let s = unescape_str(s, span)?;
-                let s = s.replace("{{", "{").replace("}}", "}");
+                let s = unescape_f_string_part(s, span)?;
                 parts.push(self.spans.add(span, FStringPart::String(s)));
             }
 
@@ -1175,11 +1173,45 @@ fn unescape_char(s: &str, span: Span) -> ParseResult<char> {
 }
 
 fn unescape_str(s: &str, span: Span) -> ParseResult<String> {
+    unescape_with(s, span, |_literal, ch, unescaped| unescaped.push(ch))
+}
+
+/// Unescape the text between the expressions of an f-string
+///
+/// In addition to the usual escape sequences, `{{` and `}}` stand for a
+/// single brace. That only holds for braces that are written literally: a
+/// brace that is the result of an escape sequence (e.g. `\u{7b}`) is just
+/// that brace.
+fn unescape_f_string_part(s: &str, span: Span) -> ParseResult<String> {
+    // The brace that we have just seen and that is not the second half of a
+    // pair.
+    let mut first_of_pair = None;
+    unescape_with(s, span, |literal, ch, unescaped| {
+        let is_brace = literal && (ch == '{' || ch == '}');
+        if is_brace && first_of_pair == Some(ch) {
+            // The second half of `{{` or `}}`
+            first_of_pair = None;
+            return;
+        }
+        first_of_pair = is_brace.then_some(ch);
+        unescaped.push(ch);
+    })
+}
+
+/// Unescape a string, handing each character to `push`
+///
+/// The first argument of `push` tells whether the character was written
+/// literally (`true`) or is the result of an escape sequence (`false`).
+fn unescape_with(
+    s: &str,
+    span: Span,
+    mut push: impl FnMut(bool, char, &mut String),
+) -> ParseResult<String> {
     let mut unescaped = String::new();
     let mut errors = Vec::new();
     rustc_literal_escaper::unescape_str(s, |range: Range<usize>, res| {
         match res {
-            Ok(ch) => unescaped.push(ch),
+            Ok(ch) => push(range.len() == ch.len_utf8(), ch, &mut unescaped),
             Err(e) => errors.push((range, e)),
         }
     });
